@@ -49,7 +49,8 @@ def simulate_requests(ctx, scratch, maxreq, num, seed):
 
 
 def relerr(a, b, scale):
-    return float(numpy.max(numpy.abs(numpy.asarray(a) - numpy.asarray(b))) / scale)
+    e = float(numpy.max(numpy.abs(numpy.asarray(a) - numpy.asarray(b))) / scale)
+    return e if e == e else float("inf")            # a NaN never compares as close
 
 
 def main(ctx, replay=None):
@@ -220,7 +221,7 @@ def check_isotropy(ctx, vals, scale, rep, sig):
                                   {**sig, "clause": "isotropic_equal"})
         for k in vals:
             if (int(k[0]) >= 4 or int(k[1]) >= 4) and k not in ("44", "55", "66"):
-                if float(numpy.max(numpy.abs(vals[k][which]))) > 1e-9 * scale:
+                if not float(numpy.max(numpy.abs(vals[k][which]))) <= 1e-9 * scale:
                     ctx.violation(f"[isotropic] c{k} ({name}) does not vanish with equal axial strains", {**rep, "key": k},
                                   {**sig, "clause": "isotropic_zero"})
         for s, l, o in (("44", "11", "12"), ("55", "22", "13"), ("66", "33", "23")):
